@@ -95,6 +95,12 @@ MUTANTS = {
             ('port-position', 'verilog.py', "                    if name in positions:\n                        c.io_nodes[positions[name]] = n", "                    if name in positions:\n                        c.io_nodes[len(positions) - 1 - positions[name]] = n"),
             ('concat-order', 'verilog.py', "            if isinstance(a, list):\n                sigs += a", "            if isinstance(a, list):\n                sigs += a[::-1]"),
             ('branchfork-extra-cell', 'verilog.py', '                        branchfork = Node(c, fork.name + "~" + n.name + "/" + p)', '                        branchfork = Node(c, fork.name + "~" + n.name + "/" + p, "BUF1" if p == "S" else "__fork__")')],
+    'C18': [('load-order', 'stil.py', "            scan_in_inversion = list(reversed(scan_in_inversion))", "            scan_in_inversion = list(scan_in_inversion)"),
+            ('unload-inversion-side', 'stil.py', "                    scan_map.append(intf_pos[n])\n                    scan_out_inversion.append(inversion)", "                    scan_map.append(intf_pos[n])\n                    scan_out_inversion.append(not inversion if len(scan_out_inversion) == 1 else inversion)"),
+            ('pi-map-po', 'stil.py', "            tests[pi_map, i] = logic.mvarray(p.capture['_pi'])\n        return tests", "            tests[pi_map[::-1], i] = logic.mvarray(p.capture['_pi'])\n        return tests"),
+            ('x-inverted', 'stil.py', "                inversions = np.choose((pattern == logic.UNASSIGNED) | (pattern == logic.UNKNOWN),\n                                       [scan_inversions[si_port], logic.ZERO]).astype(np.uint8)\n                np.bitwise_xor(pattern, inversions, out=pattern)\n                tests[scan_maps[si_port], i] = pattern", "                inversions = np.choose((pattern == logic.UNASSIGNED),\n                                       [scan_inversions[si_port], logic.ZERO]).astype(np.uint8)\n                np.bitwise_xor(pattern, inversions, out=pattern)\n                tests[scan_maps[si_port], i] = pattern"),
+            ('loc-transition-swapped', 'stil.py', "        return logic.mv_transition(init, launch)", "        return logic.mv_transition(launch, init)"),
+            ('unload-of-next-pattern', 'stil.py', "                if len(capture) > 0:\n                    self.patterns.append(ScanPattern(sload, launch, capture, unload))", "                if len(capture) > 0:\n                    self.patterns.append(ScanPattern(sload, launch, capture, dict(unload) if len(self.patterns) == 0 else self.patterns[-1].unload))")],
 }
 
 
